@@ -215,6 +215,7 @@ Proof.
       destruct kwn as [|k kwn]; [|exact Hstays].
       destruct (Nat.eqb (length lps) (length args)); [|exact Hstays].
       destruct (existsb is_starred args) eqn:Hns; [exact Hstays|].
+      destruct (has_walrus lb); [exact Hstays|]. cbn [orb].
       destruct (overlaps _ _).
       * cbn [swf]. cbn [swf] in Hf'. rewrite Hf', Hargs'. reflexivity.
       * apply swf_mono. apply IH; [exact Hszb | exact Hf | apply Hframe; reflexivity].
@@ -226,7 +227,8 @@ Proof.
       destruct (lam_parts_inv _ _ _ _ _ _ _ Hlp) as (HL & Hcs & _).
       destruct kwn as [|k kwn]; [|exact Hstays].
       destruct (lv_simple lv && Nat.eqb (length (lv_args lv)) (length args)); [|exact Hstays].
-      destruct (existsb is_starred args) eqn:Hns; [exact Hstays|]. cbn [negb andb].
+      destruct (existsb is_starred args) eqn:Hns; [exact Hstays|].
+      destruct (has_walrus b0); [exact Hstays|]. cbn [negb andb orb].
       destruct (overlaps _ _); [exact Hstays|].
       apply swf_mono. apply IH; [| |apply Hframe; reflexivity].
       * subst fcs.
